@@ -53,6 +53,11 @@ def parseAct : Nat → List Char → Option (Act × List Char)
         let r ← expect ':' rest; let (_, r) ← takeNat r
         let r ← expect ':' r; let (_, r) ← takeNat r
         pure (.fail, r)
+    -- the router's `NextLoan` sent by the borrower contract naming itself as the source vault: refused
+    | "xnx" => do
+        let r ← expect ':' rest; let (_, r) ← takeNat r
+        let r ← expect ':' r; let (_, r) ← takeNat r
+        pure (.fail, r)
     | "pay" => do let r ← expect ':' rest; let (n, r) ← takeNat r; pure (.pay n, r)
     | "dep" => do let r ← expect ':' rest; let (n, r) ← takeNat r; pure (.deposit n, r)
     | "wd" => do let r ← expect ':' rest; let (n, r) ← takeNat r; pure (.withdraw n, r)
@@ -170,6 +175,8 @@ def parseBase (ws : List String) : Option Op :=
   | ["rloan2", w, a, b, pl] => do pure (.routerLoanMulti (← w.toNat?) (← a.toNat?) (← b.toNat?) (← parseRActs pl))
   | ["rfund", a, b] => do pure (.fundRouter (← a.toNat?) (← b.toNat?))
   | ["xnext", w, n, pl] => do pure (.nextLoanBy (← w.toNat?) (← n.toNat?) (← parseRActs pl))
+  -- … the stranger naming itself as the source vault: refused all the same
+  | ["xnext", w, n, pl, "self"] => do pure (.nextLoanBy (← w.toNat?) (← n.toNat?) (← parseRActs pl))
   | ["xcomplete", w, i, n] => do pure (.completeLoanBy (← w.toNat?) (← i.toNat?) (← n.toNat?))
   -- entry points a cw20-LP vault refuses: direct `Withdraw {}` (`sel` = attached coins), `Withdraw`
   -- hook from the asset token, `Callback(AfterTrade)` from an ordinary account
